@@ -80,7 +80,10 @@ class SvsInst:
                  sync_interval: float = 30, suppression_interval: float = 0.2,
                  last_used_seq_num: int = 0):
         self.base_prefix = enc.Name.normalize(base_prefix)
-        self.self_node_id = enc.Name.to_bytes(self_node_id)
+        # In canonical encoding, like the node ids of received vectors: given as an encoded name the id may
+        # spell a length the long way, and would then never equal its own entry
+        self.self_node_id = enc.Name.to_bytes([enc.Component.from_bytes(enc.Component.get_value(c), enc.Component.get_type(c))
+                                               for c in enc.Name.normalize(self_node_id)])
         self.sync_interval = sync_interval
         self.suppression_interval = suppression_interval
         self.on_missing_data = on_missing_data
